@@ -545,7 +545,29 @@ def rule_internal_key_absent_is_none(ctx: Ctx, rep: Report) -> None:
     rep.floor(rule, 2)
 
 
+def rule_tree_depth_bounded(ctx: Ctx, rep: Report) -> None:
+    """C12.tree_depth_bounded: the verifier refuses a control block longer than
+    33 + 32 * MAX_TREE_DEPTH; the builder refuses the tree that would need
+    one -- `tree_helper` raises under a test that reads MAX_TREE_DEPTH -- so
+    every leaf the library commits to is one its own control block proves."""
+    rule = "C12.tree_depth_bounded"
+    fi = ctx.func(f"{T}.tree_helper")
+    g = ctx.cfg(fi)
+    ok = False
+    for r in own_nodes(fi.node):
+        if isinstance(r, ast.Raise) and any("MAX_TREE_DEPTH" in t and pol for t, pol in g.facts_at_ast(r)):
+            ok = True
+    rep.ob(rule, "tree_helper:refuses_too_deep", ok, fi.where(), "a path longer than 32 * MAX_TREE_DEPTH is refused" if ok else
+           "tree_helper builds merkle paths of any length: a leaf deeper than MAX_TREE_DEPTH is committed to and cannot be proven")
+    co = ctx.func(f"{T}.check_output_pubkey")
+    ok2 = any("MAX_TREE_DEPTH" in norm(t) for t, pol, _ in ctx.refusals(co))
+    rep.ob(rule, "check_output_pubkey:refuses_too_long", ok2, co.where(), "a control block past 33 + 32 * MAX_TREE_DEPTH is refused")
+    rep.floor(rule, 2)
+
+
 RULES = [
+    ("C12.tree_depth_bounded", rule_tree_depth_bounded),
+
     ("C12.internal_key_absent_is_none", rule_internal_key_absent_is_none),
 
     ("C12.key_lengths_admitted", rule_key_lengths_admitted),
